@@ -33,6 +33,13 @@ pub struct Rep {
     pub ty: STy,
     pub ret: STy,
     pub args: Vec<Vec<u64>>,
+    /// the Roto source when it is not `source(&prog)`: the `char` family prints the `u32` of `prog`
+    /// (what the Spec and the harness interpreter run: a `char` is its code point, `==` / `!=` only) as `char`
+    pub src: Option<String>,
+}
+
+impl Rep {
+    pub fn source(&self) -> String { self.src.clone().unwrap_or_else(|| source(&self.prog)) }
 }
 
 fn lit(t: STy, v: u64) -> E {
@@ -130,7 +137,7 @@ pub fn match_corpus() -> Vec<Rep> {
         let mut all = vec![];
         if !fns.iter().any(|f| f.name == "mk") { all.push(maker(def[0], t)); }
         all.extend(fns);
-        out.push(Rep { name, key, prog: Prog { enums: def.iter().map(|d| (*d).clone()).collect(), fns: all }, ty: t, ret, args: match_args(n, t) });
+        out.push(Rep { name, key, prog: Prog { enums: def.iter().map(|d| (*d).clone()).collect(), fns: all }, ty: t, ret, args: match_args(n, t), src: None });
     };
     let main = |t: STy, ret: STy, body: Blk| func("main", &[("k", t), ("n", t)], ret, body);
 
@@ -368,7 +375,7 @@ pub fn order_corpus() -> Vec<Rep> {
             out.push(Rep {
                 name: format!("match-order/{}/{shape}", def.name), key: format!("match-order {} [{shape}]", def.name),
                 prog: Prog { enums: vec![def.clone()], fns: vec![maker(def, t), func("main", &[("k", t), ("n", t)], t, body)] },
-                ty: t, ret: t, args,
+                ty: t, ret: t, args, src: None,
             });
         }
     }
@@ -480,7 +487,7 @@ pub fn float_corpus() -> Vec<Rep> {
             let f = func("main", &[("a", t), ("b", t), ("c", t)], t, val(e));
             out.push(Rep {
                 name: format!("float/{}/{name}", t.name()), key: format!("float-expr {} {name}", t.name()),
-                prog: Prog { enums: vec![], fns: vec![f] }, ty: t, ret: t, args: args.clone(),
+                prog: Prog { enums: vec![], fns: vec![f] }, ty: t, ret: t, args: args.clone(), src: None,
             });
         }
         // results observed through a comparison (`-0.0 == 0.0`, so the sign shows through a division)
@@ -496,9 +503,205 @@ pub fn float_corpus() -> Vec<Rep> {
             let f = func("main", &[("a", t), ("b", t), ("c", t)], STy::Bool, val(e));
             out.push(Rep {
                 name: format!("float/{}/{name}", t.name()), key: format!("float-expr {} {name}", t.name()),
-                prog: Prog { enums: vec![], fns: vec![f] }, ty: t, ret: STy::Bool, args: args.clone(),
+                prog: Prog { enums: vec![], fns: vec![f] }, ty: t, ret: STy::Bool, args: args.clone(), src: None,
             });
         }
+    }
+    out
+}
+
+
+/// The `char` family. `char` has literals, `==` and `!=`, and is a value like any other (variables,
+/// assignment, parameters, results, `if`-`else` values, loop conditions). Each representative is a
+/// program over `u32` (a `char` is its code point; only `==` / `!=` are applied to it) — that is what the
+/// Lean Spec and the harness interpreter run — printed for the compiler with `char` for `u32` and
+/// character literals for the `u32` literals. The code points differ in the low byte only, above the
+/// low byte only, above 16 bits only; two selector values give the same character.
+pub const CHAR_POINTS: [u32; 8] = [0x61, 0x161, 0x10061, 0x1F600, 0x41, 0x10FFFF, 0x61, 0xE9];
+
+fn char_source(p: &Prog) -> String {
+    let text = source(p);
+    // every `u32` literal is suffixed (`<digits>u32`); every other `u32` is a type name
+    let mut out = String::new();
+    let b: Vec<char> = text.chars().collect();
+    let mut i = 0;
+    while i < b.len() {
+        if b[i].is_ascii_digit() && (i == 0 || !(b[i - 1].is_ascii_alphanumeric() || b[i - 1] == '_')) {
+            let mut j = i;
+            while j < b.len() && b[j].is_ascii_digit() { j += 1; }
+            let rest: String = b[j..(j + 3).min(b.len())].iter().collect();
+            if rest == "u32" {
+                let n: u32 = b[i..j].iter().collect::<String>().parse().expect("code point");
+                out.push('\'');
+                out.push(char::from_u32(n).expect("a scalar value"));
+                out.push('\'');
+                i = j + 3;
+                continue;
+            }
+            out.extend(&b[i..j]);
+            i = j;
+            continue;
+        }
+        out.push(b[i]);
+        i += 1;
+    }
+    out.replace("u32", "char")
+}
+
+pub fn char_corpus() -> Vec<Rep> {
+    let c = STy::U32; // stands for `char`
+    let k = STy::U8;
+    let ch = |i: usize| lit(c, CHAR_POINTS[i] as u64);
+    // fn pick(k: u8) -> char: the k-th code point (the last for every other k)
+    let mut body = ch(CHAR_POINTS.len() - 1);
+    for i in (0..CHAR_POINTS.len() - 1).rev() {
+        body = ite(bin(Op::Eq, var("k", k), lit(k, i as u64)), ch(i), body);
+    }
+    let pick = func("pick", &[("k", k)], c, val(body));
+    let same = func("same", &[("x", c), ("y", c)], STy::Bool, val(bin(Op::Eq, var("x", c), var("y", c))));
+    let other = func("other", &[("x", c), ("y", c)], c, val(ite(bin(Op::Ne, var("x", c), var("y", c)), var("y", c), ch(4))));
+    let p = |x: &str| E::Call("pick".into(), vec![var(x, k)], c);
+    use Op::*;
+    let bshapes: Vec<(&str, E)> = vec![
+        ("pick(a) == pick(b)", bin(Eq, p("a"), p("b"))),
+        ("pick(a) != pick(b)", bin(Ne, p("a"), p("b"))),
+        ("pick(a) == 'a'", bin(Eq, p("a"), ch(0))),
+        ("'U+10061' != pick(a)", bin(Ne, ch(2), p("a"))),
+        ("'a' == 'a'", bin(Eq, ch(0), ch(6))),
+        ("'a' != 'U+161'", bin(Ne, ch(0), ch(1))),
+        ("same(pick(a), pick(b))", E::Call("same".into(), vec![p("a"), p("b")], STy::Bool)),
+        ("other(pick(a), pick(b)) == pick(c)", bin(Eq, E::Call("other".into(), vec![p("a"), p("b")], c), p("c"))),
+        ("pick(a) == pick(b) && pick(b) != pick(c)", bin(And, bin(Eq, p("a"), p("b")), bin(Ne, p("b"), p("c")))),
+        ("pick(a) != pick(b) || pick(b) == pick(c)", bin(Or, bin(Ne, p("a"), p("b")), bin(Eq, p("b"), p("c")))),
+        ("let x = pick(a); x = pick(b); x == pick(c)", E::Block(blk(vec![
+            S::Let("x".into(), c, false, p("a")), S::Do(set("x", p("b")))], Some(bin(Eq, var("x", c), p("c")))))),
+        ("let x: char = pick(a); let y = x; y != pick(b)", E::Block(blk(vec![
+            S::Let("x".into(), c, true, p("a")), S::Let("y".into(), c, false, var("x", c))], Some(bin(Ne, var("y", c), p("b")))))),
+        ("(if a == b { pick(a) } else { pick(c) }) == pick(b)", bin(Eq, ite(bin(Eq, var("a", k), var("b", k)), p("a"), p("c")), p("b"))),
+        ("!(pick(a) == pick(b))", E::Not(Box::new(bin(Eq, p("a"), p("b"))))),
+    ];
+    let nshapes: Vec<(&str, E)> = vec![
+        ("if pick(a) == pick(b) { 1 } else { 2 }", ite(bin(Eq, p("a"), p("b")), lit(k, 1), lit(k, 2))),
+        ("while x != pick(b) { x = pick(b); n = n + 1 }", E::Block(blk(vec![
+            S::Let("x".into(), c, false, p("a")), S::Let("n".into(), k, false, lit(k, 0)),
+            S::Do(E::While(Box::new(bin(Ne, var("x", c), p("b"))), blk(vec![S::Do(set("x", p("b"))), S::Do(set("n", bin(Add, var("n", k), lit(k, 1))))], None)))],
+            Some(var("n", k))))),
+        ("count of k < 8 with pick(k) == pick(a)", E::Block(blk(vec![
+            S::Let("i".into(), k, false, lit(k, 0)), S::Let("n".into(), k, false, lit(k, 0)),
+            S::Do(E::While(Box::new(bin(Lt, var("i", k), lit(k, 8))), blk(vec![
+                S::Do(E::If(Box::new(bin(Eq, E::Call("pick".into(), vec![var("i", k)], c), p("a"))), blk(vec![S::Do(set("n", bin(Add, var("n", k), lit(k, 1))))], None), None)),
+                S::Do(set("i", bin(Add, var("i", k), lit(k, 1))))], None)))],
+            Some(var("n", k))))),
+    ];
+    let n = CHAR_POINTS.len() as u64 + 1;
+    let mut args = vec![];
+    for a in 0..n { for b in 0..n { args.push(vec![a, b, (a + 2 * b + 1) % n]); } }
+    for a in 0..n { args.push(vec![a, a, a]); }
+    let mut out = vec![];
+    for (shapes, ret) in [(bshapes, STy::Bool), (nshapes, k)] {
+        for (name, e) in shapes {
+            let f = func("main", &[("a", k), ("b", k), ("c", k)], ret, val(e));
+            let prog = Prog { enums: vec![], fns: vec![pick.clone(), same.clone(), other.clone(), f] };
+            let src = char_source(&prog);
+            out.push(Rep { name: format!("char/{name}"), key: format!("char-expr {name}"), prog, ty: k, ret, args: args.clone(), src: Some(src) });
+        }
+    }
+    out
+}
+
+
+/// The `for` family: `for x in [e1, …, en] { body }` over list literals. `Model/Spec` has no lists; the
+/// language-defined meaning of the loop over a list LITERAL is used instead: the elements are evaluated
+/// once, in order, before the first iteration; the body then runs once per element in a scope of its own
+/// in which `x` is bound to that element. The Spec (and the harness interpreter) run that unrolled program,
+/// the compiler sees the `for` loop.
+enum FS { Plain(S), For(&'static str, Vec<E>, Vec<FS>) }
+
+fn fs_src(fs: &[FS], o: &mut String) {
+    for f in fs {
+        match f {
+            FS::Plain(st) => {
+                let mut t = String::new();
+                src_blk(&Blk { stmts: vec![st.clone()], last: None }, &mut t);
+                let t = t.trim();
+                o.push_str(t[1..t.len() - 1].trim());
+                o.push(' ');
+            }
+            FS::For(x, elems, body) => {
+                o.push_str(&format!("for {x} in ["));
+                for (i, e) in elems.iter().enumerate() { if i > 0 { o.push_str(", "); } src_expr(e, o); }
+                o.push_str("] { ");
+                fs_src(body, o);
+                o.push_str("} ");
+            }
+        }
+    }
+}
+
+fn fs_spec(fs: &[FS], n: &mut usize) -> Vec<S> {
+    let t = STy::I32;
+    let mut out = vec![];
+    for f in fs {
+        match f {
+            FS::Plain(st) => out.push(st.clone()),
+            FS::For(x, elems, body) => {
+                let id = *n;
+                *n += 1;
+                for (i, e) in elems.iter().enumerate() { out.push(S::Let(format!("l{id}_{i}"), t, false, e.clone())); }
+                for i in 0..elems.len() {
+                    let mut st = vec![S::Let(x.to_string(), t, false, var(&format!("l{id}_{i}"), t))];
+                    st.extend(fs_spec(body, n));
+                    out.push(S::Do(E::Block(blk(st, None))));
+                }
+            }
+        }
+    }
+    out
+}
+
+pub fn for_corpus() -> Vec<Rep> {
+    let t = STy::I32;
+    let v = |x: &str| var(x, t);
+    let n = |k: u64| lit(t, k);
+    use Op::*;
+    let acc = |x: E| FS::Plain(S::Do(set("s", bin(Add, bin(Mul, v("s"), n(3)), x))));
+    let s0 = || FS::Plain(S::Let("s".into(), t, false, n(0)));
+    let twice = func("twice", &[("x", t)], t, val(bin(Add, v("x"), v("x"))));
+    let shapes: Vec<(&str, Vec<FS>, E)> = vec![
+        ("sum", vec![s0(), FS::For("x", vec![v("a"), v("b"), v("c")], vec![FS::Plain(S::Do(set("s", bin(Add, v("s"), v("x")))))])], v("s")),
+        ("order", vec![s0(), FS::For("x", vec![v("a"), v("b"), v("c")], vec![acc(v("x"))])], v("s")),
+        ("one-element", vec![s0(), FS::For("x", vec![v("b")], vec![acc(v("x"))])], v("s")),
+        ("element-expressions", vec![s0(), FS::For("x", vec![bin(Add, v("a"), v("b")), bin(Mul, v("b"), v("c")), bin(Sub, v("c"), v("a")), n(7)], vec![acc(v("x"))])], v("s")),
+        ("list-evaluated-before-the-loop", vec![s0(), FS::For("x", vec![v("a"), v("a"), v("b")], vec![
+            FS::Plain(S::Do(set("a", bin(Add, v("a"), n(1))))), FS::Plain(S::Do(set("b", bin(Mul, v("b"), n(2))))), acc(v("x"))])], bin(Add, v("s"), bin(Sub, v("a"), v("b")))),
+        ("assign-to-loop-variable", vec![s0(), FS::For("x", vec![v("a"), v("b"), v("c")], vec![FS::Plain(S::Do(set("x", bin(Add, v("x"), n(1))))), acc(v("x"))])], v("s")),
+        ("early-return", vec![s0(), FS::For("x", vec![v("a"), v("b"), v("c")], vec![
+            FS::Plain(S::Do(E::If(Box::new(bin(Eq, v("x"), v("b"))), blk(vec![S::Do(E::Ret(Box::new(bin(Add, bin(Mul, v("s"), n(5)), v("x")))))], None), None))),
+            acc(v("x"))])], bin(Sub, v("s"), n(1))),
+        ("nested", vec![s0(), FS::For("x", vec![v("a"), v("b")], vec![FS::For("y", vec![v("b"), v("c"), v("x")], vec![acc(bin(Sub, v("x"), v("y")))])])], v("s")),
+        ("loop-variable-shadows", vec![s0(), FS::Plain(S::Let("x".into(), t, false, n(7))), FS::For("x", vec![v("a"), v("b")], vec![acc(v("x"))])], bin(Add, bin(Mul, v("s"), n(3)), v("x"))),
+        ("same-variable-in-nested-loops", vec![s0(), FS::For("x", vec![v("a"), v("b")], vec![FS::For("x", vec![v("c"), v("x")], vec![acc(v("x"))]), acc(v("x"))])], v("s")),
+        ("call-in-body", vec![s0(), FS::For("x", vec![v("a"), v("b"), v("c")], vec![acc(E::Call("twice".into(), vec![v("x")], t))])], v("s")),
+        ("two-loops", vec![s0(), FS::For("x", vec![v("a"), v("b")], vec![acc(v("x"))]), FS::For("y", vec![v("c"), v("s")], vec![acc(v("y"))])], v("s")),
+        ("let-in-body", vec![s0(), FS::For("x", vec![v("a"), v("b"), v("c")], vec![FS::Plain(S::Let("d".into(), t, false, bin(Sub, v("x"), v("s")))), acc(v("d"))])], v("s")),
+    ];
+    let bd: [u64; 6] = [0, 1, 2, 0xFFFF_FFFF, 0x7FFF_FFFF, 0x8000_0000];
+    let mut args = vec![];
+    for a in bd { for b in bd { for c in bd { args.push(vec![a, b, c]); } } }
+    let mut out = vec![];
+    for (name, fs, last) in shapes {
+        let mut k = 0;
+        let main = func("main", &[("a", t), ("b", t), ("c", t)], t, blk(fs_spec(&fs, &mut k), Some(last.clone())));
+        let prog = Prog { enums: vec![], fns: vec![twice.clone(), main] };
+        // the source: the helper as printed, `main` with the loops
+        let helper_only = source(&Prog { enums: vec![], fns: vec![twice.clone(), func("main", &[("a", t), ("b", t), ("c", t)], t, val(n(0)))] });
+        let cut = helper_only.find("fn main").expect("main printed");
+        let mut src = helper_only[..cut].to_string();
+        src.push_str("fn main(a: i32, b: i32, c: i32) -> i32 { ");
+        fs_src(&fs, &mut src);
+        src_expr(&last, &mut src);
+        src.push_str(" }\n");
+        out.push(Rep { name: format!("for/{name}"), key: format!("for-loop {name}"), prog, ty: t, ret: t, args: args.clone(), src: Some(src) });
     }
     out
 }
